@@ -17,13 +17,13 @@ import sys
 sys.path.insert(0, os.path.join(os.path.dirname(__file__), "..", "lib"))
 from vlib import MachineryError, main  # noqa: E402
 
-PATHS = ["w/io", "x/io", "y/io", "z/io0"]
+PATHS = ["io", "q/src", "s/src", "w/io", "x/io", "y/io", "z/io0"]
 
 SIM_CFG = """SPECIFICATION Spec
 CONSTANTS
   Prefixes <- MCPrefixes
   AddNames <- MCAddNames4
-  Pkgs <- MCPkgs4
+  Pkgs <- MCPkgsT
   DstPath = "x/io"
   MaxHist = %d
 CONSTRAINT EmitAtDepth
@@ -88,7 +88,19 @@ def run(ctx):
         ctx.note(f"model-level: {r.violated} violated on Alloc (prediction only)")
     elif not r.ok:
         raise MachineryError("TLC failed on Alloc:\n" + r.tail())
-    cases = r.prints("CASE")
+    # second alphabet, focused on the import registry: a path that is a "/"-suffix of another, a package named
+    # like the source package, and the source package itself (registry created WITH a source package)
+    cfgp = "Alloc_pkgs_thorough.cfg" if thorough else "Alloc_pkgs_quick.cfg"
+    rp = ctx.tlc("AllocMC", cfgp, workers=1, timeout=3000)
+    if rp.violated:
+        ctx.note(f"model-level: {rp.violated} violated on Alloc/{cfgp} (prediction only)")
+    elif not rp.ok:
+        raise MachineryError("TLC failed on Alloc (package alphabet):\n" + rp.tail())
+    cases = [dict(c, dst="x/io", srcpath="", srcname="") for c in r.prints("CASE")]
+    cases_p = [dict(c, dst="s/src", srcpath="s/src", srcname="src") for c in rp.prints("CASE")]
+    if len(cases_p) < 100:
+        raise MachineryError(f"too few exported histories for the package alphabet ({len(cases_p)}): vacuous")
+    cases += cases_p
     if len(cases) < 100:
         raise MachineryError(f"too few exported histories ({len(cases)}): vacuous")
     # coverage / vacuity: every op kind must occur in the exported histories
@@ -108,7 +120,7 @@ def run(ctx):
     pkgnames = {o["name"] for c in cases for o in c["ops"] if o["op"] == "import"}
     uni = universe(prefixes, names, pkgnames)
     d = ctx.mkdir("replay")
-    inp = {"universe": uni, "cases": [{"inpkg": c["inpkg"], "dst": "x/io",
+    inp = {"universe": uni, "cases": [{"inpkg": c["inpkg"], "dst": c["dst"], "srcpath": c["srcpath"], "srcname": c["srcname"],
                                         "ops": [{k: v for k, v in o.items() if k in ("op", "name", "prefix", "path")}
                                                 for o in c["ops"]]} for c in cases]}
     (d / "cases.json").write_text(json.dumps(inp))
@@ -178,7 +190,7 @@ def run(ctx):
 
 # ---------------------------------------------------------------------- probe templates
 PKGS = {  # path suffix -> package name
-    "x/io": "io", "y/io": "io", "z/io0": "io0", "w/io": "io",
+    "x/io": "io", "y/io": "io", "z/io0": "io0", "w/io": "io", "q/src": "src",
 }
 
 
@@ -200,7 +212,7 @@ def run_probe_templates(ctx, hists):
         if any(o["op"] == "suggest" for o in hists[i]["ops"]):
             src.append(f"type J{i} interface {{ M(a xio.T, io yio.T, a1 string, _ zio.T) (io0 int) }}")
     files["src/src.go"] = "\n".join(src) + "\n"
-    uni = universe(["a", "a1", "io"], ["a", "a1", "a2", "io", "io0"], ["io", "io0"])
+    uni = universe(["a", "a1", "io", "type", "src"], ["a", "a1", "a2", "io", "io0", "type1", "typeParam"], ["io", "io0", "src"])
     t = []
 
     def block(iface, i, ops):
@@ -210,6 +222,9 @@ def run_probe_templates(ctx, hists):
                  % (i, tq(",".join(uni))))
         # imports already made by mockery for the real signature
         t.append('{{- range $.Imports }}\n{"op":"import","case":%d,"name":"","path":{{ printf "%%q" .Path }},"nil":false,"res":{{ printf "%%q" .Qualifier }}}{{ end }}' % i)
+        # the scope mockery produced for the method must see the qualifiers of the file's imports
+        t.append('{"op":"scopesees","case":%d,"visible":[{{ range $k, $n := (split "," %s) }}{{ if $s.NameExists $n }}{{ printf "%%q" $n }},{{ end }}{{ end }}""]}'
+                 % (i, tq(",".join(uni))))
         for o in ops:
             op = o["op"]
             if op == "add":   # AddName has no result and cannot be called from a template: use exists instead
